@@ -313,6 +313,10 @@ pub enum UFn {
     PointOnDiag,
     CPointOnDiag,
     FBoxSmall,
+    /// PARTIAL (panics at 0): only ever generated after a validator that excludes 0
+    InvSmall,
+    /// PARTIAL (panics on ""): only ever generated after a validator that excludes the empty string
+    FirstNotX,
     // custom validators (with = .., error = ..)
     CheckInt,
     CheckFloat,
@@ -323,6 +327,11 @@ pub enum UFn {
 impl UFn {
     pub fn idempotent(self) -> bool {
         !matches!(self, UFn::WrapAdd1 | UFn::Dup)
+    }
+    /// partial predicates panic outside their domain; the grammar only places them after a validator
+    /// that rejects every value outside the domain
+    pub fn is_partial(self) -> bool {
+        matches!(self, UFn::InvSmall | UFn::FirstNotX)
     }
     pub fn is_const(self) -> bool {
         matches!(self, UFn::CClamp | UFn::CClamp01 | UFn::CIsEven | UFn::CPointOnDiag)
@@ -345,6 +354,8 @@ pub enum Spell {
     Closure,
     ClosureTyped,
     ClosureMut,
+    /// a single identifier brought into scope by `use ulib::f;` (the shortest possible path)
+    Bare,
 }
 
 #[derive(Clone, Debug, PartialEq, Eq, Hash)]
@@ -402,6 +413,14 @@ pub enum Form {
     Mul2,
     /// `if true { K } else { K }`
     IfExpr,
+    /// `!N` with the literal N = !v (integers only; a negative N is written `!-3`)
+    NotLit,
+    /// `!K` with K = !v (integers only)
+    NotConst,
+    /// `-(N)` with the literal N = -v
+    NegLitParen,
+    /// `-(-N)` with the literal N = v (v >= 0)
+    DoubleNeg,
 }
 
 #[derive(Clone, Debug, PartialEq, Eq, Hash)]
@@ -612,6 +631,10 @@ pub struct Decl {
     pub derives: Vec<Tr>,
     /// raw default value (before sanitisation), rendered as an expression of the inner type
     pub default: Option<Val>,
+    /// when set, the default is WRITTEN as this expression (compound arithmetic over unsuffixed literals,
+    /// whose evaluation depends on the type the literals are inferred at); `default` holds the value it
+    /// denotes when evaluated at the inner type
+    pub default_src: Option<String>,
     pub const_fn: bool,
     pub new_unchecked: bool,
     pub vis: Vis,
@@ -629,6 +652,7 @@ impl Decl {
             validation: Validation::None,
             derives: vec![],
             default: None,
+            default_src: None,
             const_fn: false,
             new_unchecked: false,
             vis: Vis::Pub,
